@@ -127,6 +127,14 @@ func (m *SigningProposalFSM) actionPartialSignConfirmationReceived(inEvent fsm.E
 		return
 	}
 
+	// Partial signatures made for another batch (e.g. a slow participant's
+	// answer to an already finished batch) must not be counted for this one.
+	if request.BatchID != m.payload.SigningProposalPayload.BatchID {
+		err = fmt.Errorf("partial signs are made for batch {\"%s\"}, current batch is {\"%s\"}",
+			request.BatchID, m.payload.SigningProposalPayload.BatchID)
+		return
+	}
+
 	signingProposalParticipant := m.payload.SigningQuorumGet(request.ParticipantId)
 
 	if signingProposalParticipant.Status != internal.SigningAwaitPartialSigns {
